@@ -10,9 +10,12 @@ import (
 	"sort"
 	"strconv"
 	"strings"
+	"sync"
+	"time"
 
 	"github.com/valyala/fasthttp"
 	"github.com/valyala/fasthttp/fasthttpadaptor"
+	"github.com/valyala/fasthttp/fasthttputil"
 
 	"verif/internal/mon"
 )
@@ -25,16 +28,21 @@ type reqCase struct {
 	Headers [][2]string
 	Body    string
 	Chunked bool
+
+	OddSpecials int  // 0: canonical spelling of Host/Content-Type/Content-Length/Transfer-Encoding/Cookie lines, 1: lower case, 2: upper case
+	NoNormalize bool // fasthttp side parses with header name normalising disabled (Server.DisableHeaderNamesNormalizing)
+	ViaServer   bool // the fasthttp side is a real Server whose handler calls ConvertRequest
 }
 
 var methods = []string{"GET", "GET", "POST", "PUT", "DELETE", "HEAD", "OPTIONS", "PATCH"}
 var targets = []string{"/", "/a/b?x=1&y=2", "/p%20q?x=%41%2F", "/a//b/../c/./d", "/?", "/x?a=b&a=c&", "/%E4%BD%A0", "/a;b=c?d;e", "/very/" + strings.Repeat("long/", 40) + "path?q=" + strings.Repeat("v", 200),
 	"http://abs.example/x?y=1", "http://ABS.example:8080/", "/a+b?c+d", "/a?b#c", "//double/slash", "/%zz", "/a%2fb"}
 var hosts = []string{"example.com", "example.com", "Example.COM:8080", "127.0.0.1:80", "[::1]:8080", "", "a-b.c"}
-var reqHdrNames = []string{"X-Foo", "x-foo", "X-FOO", "Accept", "accept-encoding", "Cookie", "X-Empty", "If-None-Match", "Authorization", "Referer", "X-Forwarded-For", "x-forwarded-for", "Cache-Control", "Accept-Language", "X-Request-Id", "Connection", "Upgrade-Insecure-Requests"}
+var reqHdrNames = []string{"X-Foo", "x-foo", "X-FOO", "Accept", "accept-encoding", "Cookie", "X-Empty", "If-None-Match", "Authorization", "Referer", "X-Forwarded-For", "x-forwarded-for", "Cache-Control", "Accept-Language", "X-Request-Id", "Connection", "Upgrade-Insecure-Requests",
+	"x-request-id", "X-REQUEST-ID", "X-FORWARDED-for", "ACCEPT", "if-none-match", "CACHE-control", "aCCEPT-lANGUAGE", "User-Agent"}
 var reqHdrValues = []string{"1", "bar", "a, b", " padded ", "\tTab", "", "gzip, deflate", "k=v", "k2=v2; k3=v3", "\"etag\"", "Basic dXNlcjpwYXNz", "http://ref.example/?q=1", "10.0.0.1", "203.0.113.7, 10.0.0.2", "en-US,en;q=0.5", "keep-alive", "utf-8 ü"}
 
-func genRequest(rnd *rand.Rand) reqCase {
+func genRequest(rnd *rand.Rand, id int) reqCase {
 	rc := reqCase{Method: methods[rnd.Intn(len(methods))], Target: targets[rnd.Intn(len(targets))], Proto: "HTTP/1.1", Host: hosts[rnd.Intn(len(hosts))]}
 	if rnd.Intn(4) == 0 {
 		rc.Proto = "HTTP/1.0"
@@ -42,7 +50,12 @@ func genRequest(rnd *rand.Rand) reqCase {
 	if rc.Method == "OPTIONS" && rnd.Intn(3) == 0 {
 		rc.Target = "*"
 	}
-	hasCookie := false
+	rc.NoNormalize = rnd.Intn(2) == 0
+	rc.ViaServer = rnd.Intn(8) == 0
+	if rnd.Intn(4) == 0 {
+		rc.OddSpecials = 1 + rnd.Intn(2)
+	}
+	hasCookie, hasUA := false, false
 	for k, n := 0, rnd.Intn(7); k < n; k++ {
 		name := reqHdrNames[rnd.Intn(len(reqHdrNames))]
 		val := reqHdrValues[rnd.Intn(len(reqHdrValues))]
@@ -59,7 +72,20 @@ func genRequest(rnd *rand.Rand) reqCase {
 		if strings.EqualFold(name, "Connection") {
 			val = []string{"keep-alive", "close", "Keep-Alive"}[rnd.Intn(3)]
 		}
+		if name == "User-Agent" {
+			if hasUA {
+				continue // single-valued in fasthttp (stated exclusion)
+			}
+			hasUA = true
+			val = "c36-agent/1.0"
+		}
+		if name == "Cookie" || name == "User-Agent" {
+			name = rc.spell(name)
+		}
 		rc.Headers = append(rc.Headers, [2]string{name, val})
+	}
+	if rc.ViaServer {
+		rc.Headers = append(rc.Headers, [2]string{"X-Case", strconv.Itoa(id)}) // lets the server-side handler file its result
 	}
 	if rc.Method != "GET" && rc.Method != "HEAD" && rc.Method != "OPTIONS" || rnd.Intn(10) == 0 {
 		switch rnd.Intn(4) {
@@ -77,22 +103,33 @@ func genRequest(rnd *rand.Rand) reqCase {
 	return rc
 }
 
+// spell renders the name of a header that fasthttp treats specially in the case's spelling.
+func (rc *reqCase) spell(name string) string {
+	switch rc.OddSpecials {
+	case 1:
+		return strings.ToLower(name)
+	case 2:
+		return strings.ToUpper(name)
+	}
+	return name
+}
+
 func (rc *reqCase) bytes(rnd *rand.Rand) []byte {
 	var b bytes.Buffer
 	fmt.Fprintf(&b, "%s %s %s\r\n", rc.Method, rc.Target, rc.Proto)
 	var lines []string
 	if rc.Host != "" {
-		lines = append(lines, "Host: "+rc.Host)
+		lines = append(lines, rc.spell("Host")+": "+rc.Host)
 	}
 	for _, h := range rc.Headers {
 		lines = append(lines, h[0]+": "+h[1])
 	}
 	if rc.Body != "" {
-		lines = append(lines, "Content-Type: application/octet-stream")
+		lines = append(lines, rc.spell("Content-Type")+": application/octet-stream")
 		if rc.Chunked {
-			lines = append(lines, "Transfer-Encoding: chunked")
+			lines = append(lines, rc.spell("Transfer-Encoding")+": chunked")
 		} else {
-			lines = append(lines, "Content-Length: "+strconv.Itoa(len(rc.Body)))
+			lines = append(lines, rc.spell("Content-Length")+": "+strconv.Itoa(len(rc.Body)))
 		}
 	}
 	rnd.Shuffle(len(lines), func(i, j int) { lines[i], lines[j] = lines[j], lines[i] })
@@ -143,7 +180,13 @@ func (rc *reqCase) class() string {
 	case strings.Contains(rc.Target, "?"):
 		tk = "query"
 	}
-	return fmt.Sprintf("%s/%s/%s/host=%v/h%d/rep=%v/%s", rc.Method, tk, rc.Proto, rc.Host != "", len(rc.Headers), rep, body)
+	noncanon := false
+	for _, h := range rc.Headers {
+		if h[0] != http.CanonicalHeaderKey(h[0]) {
+			noncanon = true
+		}
+	}
+	return fmt.Sprintf("%s/%s/%s/host=%v/h%d/rep=%v/%s/nonorm=%v/noncanon=%v/odd=%d/srv=%v", rc.Method, tk, rc.Proto, rc.Host != "", len(rc.Headers), rep, body, rc.NoNormalize, noncanon, rc.OddSpecials, rc.ViaServer)
 }
 
 func (rc *reqCase) nontrivial() bool {
@@ -156,15 +199,27 @@ type parsed struct {
 	Header                                     map[string][]string
 }
 
+// detach copies every string out of the memory it may share with a RequestCtx.
+func (p parsed) detach() parsed {
+	c := strings.Clone
+	q := parsed{Method: c(p.Method), URL: c(p.URL), RequestURI: c(p.RequestURI), Proto: c(p.Proto), Host: c(p.Host), Body: c(p.Body), Major: p.Major, Minor: p.Minor, Header: map[string][]string{}}
+	for k, vv := range p.Header {
+		nv := make([]string, len(vv))
+		for i, v := range vv {
+			nv[i] = c(v)
+		}
+		q.Header[c(k)] = nv
+	}
+	return q
+}
+
 func headerMultiset(h http.Header) map[string][]string {
 	out := map[string][]string{}
 	for k, vv := range h {
 		if k == "Host" || k == "Transfer-Encoding" {
 			continue
 		}
-		v := append([]string(nil), vv...)
-		sort.Strings(v)
-		out[k] = v
+		out[k] = append([]string(nil), vv...) // wire order within a name is part of the comparison
 	}
 	return out
 }
@@ -178,7 +233,72 @@ func snapshotReq(r *http.Request) (parsed, error) {
 	return p, err
 }
 
+// convServers: two real fasthttp servers (header name normalising on / off) whose handler
+// calls ConvertRequest and files what it produced under the request's X-Case id.
+type convResult struct {
+	p    parsed
+	err  error // ConvertRequest error
+	berr error // body read error
+}
+
+type convServers struct {
+	ln      [2]*fasthttputil.InmemoryListener // [0] normalising, [1] DisableHeaderNamesNormalizing
+	results sync.Map
+}
+
+func newConvServers() *convServers {
+	cs := &convServers{}
+	h := func(ctx *fasthttp.RequestCtx) {
+		var res convResult
+		var hr http.Request
+		if res.err = fasthttpadaptor.ConvertRequest(ctx, &hr, true); res.err == nil {
+			res.p, res.berr = snapshotReq(&hr)
+			res.p = res.p.detach() // the converted request aliases ctx memory, which is reused after the handler returns
+		}
+		cs.results.Store(string(ctx.Request.Header.Peek("X-Case")), res)
+		ctx.SetConnectionClose()
+		ctx.SetBodyString("ok")
+	}
+	for k := range cs.ln {
+		cs.ln[k] = fasthttputil.NewInmemoryListener()
+		srv := &fasthttp.Server{Handler: h, DisableHeaderNamesNormalizing: k == 1, Logger: nopLogger{}, NoDefaultServerHeader: true}
+		go srv.Serve(cs.ln[k]) //nolint:errcheck
+	}
+	return cs
+}
+
+func (cs *convServers) close() {
+	for _, l := range cs.ln {
+		l.Close()
+	}
+}
+
+// convert sends raw to the server of the wanted configuration; ok=false: the server answered
+// without dispatching the handler (it rejected the request).
+func (cs *convServers) convert(raw []byte, id int, noNormalize bool) (res convResult, ok bool, err error) {
+	k := 0
+	if noNormalize {
+		k = 1
+	}
+	c, err := cs.ln[k].Dial()
+	if err != nil {
+		return res, false, err
+	}
+	defer c.Close()
+	if _, err := c.Write(raw); err != nil {
+		return res, false, err
+	}
+	io.Copy(io.Discard, c) //nolint:errcheck  (the handler asks for Connection: close; an error response closes too)
+	v, found := cs.results.LoadAndDelete(strconv.Itoa(id))
+	if !found {
+		return res, false, nil
+	}
+	return v.(convResult), true, nil
+}
+
 func runRequests(r *mon.Run) {
+	cs := newConvServers()
+	defer cs.close()
 	const caseBase = 10_000_000 // request case ids are disjoint from program case ids
 	n := r.N(20_000, 2_000_000)
 	const block = 500
@@ -196,18 +316,21 @@ func runRequests(r *mon.Run) {
 						r.Violation(i, "panic", fmt.Sprintf("request case %d panicked: %v", i, p), map[string]any{"part": "request", "case": i})
 					}
 				}()
-				requestCase(r, i)
+				requestCase(r, cs, i)
 			}()
 		}
 	})
 	if !r.Replaying() {
 		r.Require("requests_compared", n/2)
+		r.Require("requests_converted_inside_a_server_handler", n/20)
+		r.Require("normalizing_disabled_with_noncanonical_names", n/10)
+		r.Require("normalizing_disabled_with_field_repeated_in_two_casings", n/200)
 	}
 }
 
-func requestCase(r *mon.Run, i int) {
+func requestCase(r *mon.Run, cs *convServers, i int) {
 	rnd := r.Rand("req", i)
-	rc := genRequest(rnd)
+	rc := genRequest(rnd, i)
 	raw := rc.bytes(rnd)
 	payload := map[string]any{"part": "request", "request": rc, "raw": mon.Short(raw, 400)}
 
@@ -222,22 +345,66 @@ func requestCase(r *mon.Run, i int) {
 		return
 	}
 
-	var ctx fasthttp.RequestCtx
-	if err := ctx.Request.Read(bufio.NewReader(bytes.NewReader(raw))); err != nil {
-		r.Event("skipped_rejected_by_fasthttp", 1)
-		return
+	var got parsed
+	var cerr error
+	if rc.ViaServer {
+		var res convResult
+		var served bool
+		finished := mon.Watchdog(2*time.Minute, func() { res, served, err = cs.convert(raw, i, rc.NoNormalize) })
+		if !finished || err != nil {
+			r.Inconclusive(fmt.Sprintf("request case %d: server route did not complete (finished=%v err=%v): %s", i, finished, err, mon.Short(raw, 200)))
+			return
+		}
+		if !served {
+			r.Event("skipped_rejected_by_fasthttp", 1)
+			return
+		}
+		r.Event("requests_converted_inside_a_server_handler", 1)
+		got, cerr, err = res.p, res.err, res.berr
+	} else {
+		var ctx fasthttp.RequestCtx
+		if rc.NoNormalize {
+			ctx.Request.Header.DisableNormalizing() // what serveConn does for Server.DisableHeaderNamesNormalizing
+		}
+		if err := ctx.Request.Read(bufio.NewReader(bytes.NewReader(raw))); err != nil {
+			r.Event("skipped_rejected_by_fasthttp", 1)
+			return
+		}
+		ctx.Init2(nil, nopLogger{}, true)
+		var hr http.Request
+		if cerr = fasthttpadaptor.ConvertRequest(&ctx, &hr, true); cerr == nil {
+			got, err = snapshotReq(&hr)
+		}
 	}
-	ctx.Init2(nil, nopLogger{}, true)
-	var hr http.Request
-	if err := fasthttpadaptor.ConvertRequest(&ctx, &hr, true); err != nil {
+	if rc.NoNormalize {
+		r.Event("requests_with_normalizing_disabled", 1)
+		spell := map[string]string{}
+		noncanon, twoCasings := false, false
+		for _, h := range rc.Headers {
+			ck := http.CanonicalHeaderKey(h[0])
+			if h[0] != ck {
+				noncanon = true
+			}
+			if prev, ok := spell[ck]; ok && prev != h[0] {
+				twoCasings = true
+			}
+			spell[ck] = h[0]
+		}
+		if noncanon {
+			r.Event("normalizing_disabled_with_noncanonical_names", 1)
+		}
+		if twoCasings {
+			r.Event("normalizing_disabled_with_field_repeated_in_two_casings", 1)
+		}
+	}
+	if cerr != nil {
 		r.Event("skipped_convertrequest_error", 1)
 		r.Case(rc.class(), rc.nontrivial())
 		if rc.Target != "/%zz" {
-			r.Violation(i, "unclassified-convertrequest-error", fmt.Sprintf("ConvertRequest failed on a request net/http parses: %v; raw=%s", err, mon.Short(raw, 200)), payload)
+			r.Violation(i, "unclassified-convertrequest-error", fmt.Sprintf("ConvertRequest failed on a request net/http parses: %v; raw=%s", cerr, mon.Short(raw, 200)), payload)
 		}
 		return
 	}
-	got, err := snapshotReq(&hr)
 	if err != nil {
 		r.Violation(i, "unclassified-convertrequest-body", fmt.Sprintf("reading the converted body failed: %v", err), payload)
 		return
@@ -280,6 +447,19 @@ func requestCase(r *mon.Run, i int) {
 	}
 	if got.Body != want.Body {
 		diff("body", mon.Short([]byte(got.Body), 60), mon.Short([]byte(want.Body), 60))
+	}
+	var nonCanonical []string
+	for k := range got.Header {
+		if k != http.CanonicalHeaderKey(k) {
+			nonCanonical = append(nonCanonical, k)
+		}
+	}
+	if len(nonCanonical) > 0 {
+		// net/http's Header map is keyed by canonical (textproto) names; Get/Values cannot find anything else
+		sort.Strings(nonCanonical)
+		r.Violation(i, "convertrequest-header-key-not-canonical", fmt.Sprintf("ConvertRequest produced Header keys %q (normalising disabled=%v): r.Header.Get(%q) = %q, http.ReadRequest has %q; raw=%s",
+			nonCanonical, rc.NoNormalize, http.CanonicalHeaderKey(nonCanonical[0]), http.Header(got.Header).Get(http.CanonicalHeaderKey(nonCanonical[0])), want.Header[http.CanonicalHeaderKey(nonCanonical[0])], mon.Short(raw, 200)), payload)
+		return
 	}
 	names := map[string]bool{}
 	for k := range got.Header {
